@@ -160,8 +160,15 @@ def job_case(cfg):
     singles = [q for q in res1 if q.kind == "return"]
     twos = [r for r in results if r.kind == "return"]
     n_cross = 0
+    import time as _time
+
+    t_cross = _time.time()
+    budget = 120 if C.TIER == "quick" else 600
     if len(singles) * len(twos) <= (400 if C.TIER == "quick" else 4000):
         for pi, r in enumerate(twos):
+            if _time.time() - t_cross > budget:
+                jr.setdefault("notes", []).append("cross-path row-0 comparison stopped after %d s (%d of %d two-row paths compared)" % (budget, pi, len(twos)))
+                break
             t2 = [s.t for s in r.value[0].a[0].reshape(-1)] + [r.value[1].a.reshape(-1)[0].t]
             for qi, q in enumerate(singles):
                 t1 = [s.t for s in q.value[0].a[0].reshape(-1)] + [q.value[1].a.reshape(-1)[0].t]
